@@ -64,6 +64,12 @@ class C10:
                     target = rng.pick(gen.D8_TARGETS)
                 elif rng.chance(1, 8):
                     target = gen.canonical_abs_target(rng)      # the class of C10_request_roundtrip_absolute
+                elif rng.chance(1, 12):
+                    # authority form as CONNECT uses it (rhymuri reads host:port as scheme:path; it round-trips as such)
+                    method = rng.pick([b"CONNECT", b"CONNECT", b"connect", b"GET"])
+                    target = rng.pick([b"www.example.com:443", b"example.org:80", b"h:1", b"a.b:65535", b"localhost:8080"])
+                elif rng.chance(1, 30):
+                    method, target = b"OPTIONS", b"*"
                 g = Group("g%d" % k, "req-value", {"method": method.hex(), "target": target.hex(), "headers": [[a.hex(), b.hex()] for a, b in hs], "body": body.hex(), "hl": hl})
                 g.add("grt", "REQGRT %s %s %s %s %s" % (opt(hl), hx(method), hx(target), hdrs_field(hs), hx(body)))
                 g.add("uri", "URI %s" % hx(target))
@@ -203,7 +209,7 @@ class C11:
 # de-chunk rewrite (C12)
 
 FRAMING = (b"content-length", b"transfer-encoding", b"trailer")
-OTHER_CODINGS = [b"gzip", b"deflate", b"foo", b"bar", b"GZIP", b"x-custom", b"compress", b"", b"gzip", b"foo"]
+OTHER_CODINGS = [b"gzip", b"deflate", b"foo", b"bar", b"GZIP", b"x-custom", b"compress", b"", b"gzip", b"foo", b"identity", b"Identity", b"x-identity"]
 
 
 def tokens_of(values):
